@@ -3,6 +3,7 @@ import signal
 
 from simkit.core import Result, h64
 from simkit.kernel import Sim, current_task
+from simkit import preempt
 from simkit import facade
 from worlds import worker as W
 
@@ -19,7 +20,7 @@ RULE = ("case = the real ThreadWorker.run() main loop and real handler threads (
         "pieces, wait, keep-alive second request, close, reset, go silent}, applications that return at once or block for "
         "simulated seconds, optional TERM at a seeded time, threads 1-3, worker_connections 2-5, keepalive 0-3; every "
         "scheduler decision among runnable simulated threads, forced pre-emption points at seeded system-call indices, a fine-grained mode (switch after any simulated system call with probability 1/2 or 1/4) and "
-        "short reads are drawn from the seed.  Invariants are checked on every kernel event, bounded liveness only where no "
+        "short reads and accept() losing the race for a shared listener (EAGAIN after readable) are drawn from the seed.  Invariants are checked on every kernel event, bounded liveness only where no "
         "fault is in flight.  distinct = distinct event-trace shapes (actor, event kind sequence); non-trivial = at least one "
         "connection was accepted")
 ASSUMPTIONS = [
@@ -97,7 +98,8 @@ def make_case(index, rng, tier):
     term = round(rng.uniform(0.3, 7.0), 2) if rng.randrange(2) == 0 else None
     return {"threads": threads, "worker_connections": wc, "keepalive": ka, "clients": clients, "term": term,
             "graceful_timeout": rng.choice([1, 2, 4]), "at_capacity": at_capacity,
-            "buggify": {"short_recv": rng.randrange(3) == 0, "spurious_select": False},
+            "buggify": {"pyticks": rng.randrange(3) == 0, "short_recv": rng.randrange(3) == 0, "spurious_select": False,
+                        "accept_eagain": rng.randrange(4) == 0},
             "preempt": rng.randrange(0, 6), "fine": rng.choice([0, 0, 0, 2, 4])}
 
 
@@ -105,6 +107,9 @@ def run(case, choices):
     res = Result()
     sim = Sim(choices, max_steps=200000, max_time=200.0)
     sim.buggify = dict(case["buggify"])
+    if case["buggify"].get("pyticks"):
+        preempt.enable()
+        sim.py_ticks = True          # eval-breaker points inside gunicorn's Python code are delivery / pre-emption points too
     sim.fine_interleave = case.get("fine", 0)
     wc, ka, gt = case["worker_connections"], case["keepalive"], case["graceful_timeout"]
     w = W.WorkerWorld(sim, "gthread", {"timeout": 30, "graceful_timeout": gt, "keepalive": ka, "threads": case["threads"],
@@ -135,6 +140,13 @@ def run(case, choices):
 
     def observer(s, actor, kind, detail):
         t = current_task()
+        ex = state.get("excess_at")
+        if ex is not None:
+            if len(open_socks) <= wc:
+                state["excess_at"] = None
+            elif s.now > ex[0] + 1e-9:
+                res.violate("C13:over-capacity", "%d connections open at once since t=%.3f, worker_connections=%d; %s" % (ex[1], ex[0], wc, ctx()))
+                state["excess_at"] = None
         if kind == "accept" and actor == "worker":
             fd = detail[1]
             open_socks[fd] = {"name": detail[0], "at": s.now}
@@ -143,8 +155,10 @@ def run(case, choices):
             state["max_open"] = max(state["max_open"], n)
             if n == wc:
                 s.probe("at_capacity_iteration")
-            if n > wc:
-                res.violate("C13:over-capacity", "%d connections open at once, worker_connections=%d; %s" % (n, wc, ctx()))
+            if n > wc and state.get("excess_at") is None:
+                # a handler thread that has already given its slot back (nr_conns -= 1) but has not executed close() yet is a
+                # transient of zero duration: judged only if the excess outlives the instant
+                state["excess_at"] = (s.now, n)
         elif kind == "sock-close" and actor == "worker":
             fd = detail
             if fd in open_socks:
@@ -236,6 +250,8 @@ def run(case, choices):
         for c, spec in zip(clients, case["clients"]):
             if termed or state["spin"] is not None:
                 break
+            if c.stream is not None and c.stream.peer in sim.stolen:
+                continue          # taken by a (not simulated) sibling worker sharing the listener
             sends = [e for e in c.log if e[1] == "sent"]
             for r in c.responses:
                 if r.get("timeout") and regime == "under-capacity":
